@@ -19,6 +19,7 @@ namespace primesieve {
 
 class CpuInfo
 {
+  PRIMESIEVE_VERIF_FRIEND
 public:
   CpuInfo();
   bool hasCpuName() const;
